@@ -48,12 +48,32 @@ fn classify_glyph(font: &BitFont, ch: char) -> Option<Shape> {
     }
 }
 
+/// glyphs redrawn in the edited clone of a page (index PAGES + n of `fonts()`): blank glyphs become solid, all others blank
+const EDITED_GLYPHS: [u8; 10] = [0, 1, 2, 32, 65, 88, 176, 219, 254, 255];
+
+/// entries 0..PAGES: the built-in pages; entries PAGES..2*PAGES and 2*PAGES..3*PAGES: a clone of page n whose EDITED_GLYPHS were redrawn in place through
+/// get_glyph_mut WITHOUT calculate_checksum(), as a font editor does: same name, size and stored checksum as page n, other bitmaps
 fn fonts() -> &'static Vec<FontInfo> {
     static F: OnceLock<Vec<FontInfo>> = OnceLock::new();
     F.get_or_init(|| {
-        (0..PAGES)
-            .map(|n| {
-                let font = BitFont::from_ansi_font_page(n).unwrap_or_else(|e| panic!("built-in font page {n} does not load: {e}"));
+        (0..3 * PAGES)
+            .map(|vn| {
+                let n = vn % PAGES;
+                let mut font = BitFont::from_ansi_font_page(n).unwrap_or_else(|e| panic!("built-in font page {n} does not load: {e}"));
+                if vn >= PAGES {
+                    for c in EDITED_GLYPHS {
+                        // second variant (2*PAGES..): NUL and space stay as they are, so that invisible cells look alike in both fonts
+                        if vn >= 2 * PAGES && (c == 0 || c == 32) {
+                            continue;
+                        }
+                        let was_clear = classify_glyph(&font, c as char) == Some(Shape::Clear);
+                        if let Some(g) = font.get_glyph_mut(c as char) {
+                            for row in g.data.iter_mut() {
+                                *row = if was_clear { 0xFF } else { 0 };
+                            }
+                        }
+                    }
+                }
                 let mut shape = Vec::with_capacity(256);
                 let (mut clear, mut set, mut mixed) = (vec![], vec![], vec![]);
                 for c in 0..=255u8 {
@@ -128,9 +148,19 @@ struct Doc {
     /// storage shape of layer 0 / the terminal size (icyv::shape, 0 = as built)
     #[serde(default)]
     shape: u8,
+    /// Some(i): the slot Doc::slots[i] (if it is not slot 0) holds the edited clone of the font in slot 0 instead of its built-in page:
+    /// two slots with the same name, size and stored checksum but different bitmaps
+    #[serde(default)]
+    edited_clone: Option<u8>,
+    /// the clone's NUL and space glyphs are redrawn as well (edited strips only: there are no invisible cells in them)
+    #[serde(default)]
+    edited_space: bool,
 }
 
 impl Doc {
+    fn edited_slot(&self) -> Option<usize> {
+        self.edited_clone.map(|i| self.slot(i)).filter(|s| *s != 0)
+    }
     fn slot(&self, idx: u8) -> usize {
         if self.slots.is_empty() {
             0
@@ -191,7 +221,7 @@ fn build(d: &Doc) -> Built {
     }
     for slot in wanted {
         if slot_page[slot] == usize::MAX {
-            let page = d.page_of_slot(slot);
+            let page = if d.edited_slot() == Some(slot) { (if d.edited_space { PAGES } else { 2 * PAGES }) + d.page_of_slot(0) } else { d.page_of_slot(slot) };
             buf.set_font(slot, fs[page].font.clone());
             slot_page[slot] = page;
         }
@@ -510,11 +540,12 @@ fn docs() -> BoxedStrategy<Doc> {
         prop::collection::vec(any::<(u8, u8, u8)>(), 0..=4),
         layers,
         prop_oneof![3 => Just(0u8), 2 => 1u8..icyv::shape::CODES],
+        prop_oneof![4 => Just(None), 1 => (1u8..=2).prop_map(Some)],
     )
-        .prop_map(|(w, h, slot0_page, more, all_fonts, rgb, layers, shape)| {
+        .prop_map(|(w, h, slot0_page, more, all_fonts, rgb, layers, shape, edited_clone)| {
             let mut slots = vec![0u8];
             slots.extend(more);
-            Doc { w, h, slot0_page, slots, all_fonts, rgb, layers, shape }
+            Doc { w, h, slot0_page, slots, all_fonts, rgb, layers, shape, edited_clone, edited_space: false }
         })
         .boxed()
 }
@@ -524,6 +555,9 @@ fn minimize(d: &Doc) -> Vec<Doc> {
     let mut out = Vec::new();
     if d.shape != 0 {
         out.push(Doc { shape: 0, ..d.clone() });
+    }
+    if d.edited_clone.is_some() {
+        out.push(Doc { edited_clone: None, ..d.clone() });
     }
     // fewer layers
     if d.layers.len() > 1 {
@@ -679,6 +713,8 @@ fn strip_doc(s: &Strip) -> Doc {
         rgb: vec![(1, 2, 3)],
         layers: vec![LayerM { w: 5, h: 2, ox: 0, oy: 0, alpha: false, visible: true, dfp: 0, rows }],
         shape: 0,
+        edited_clone: None,
+        edited_space: false,
     }
 }
 
@@ -699,15 +735,50 @@ fn check_strip(s: &Strip) -> Verdict {
     }
 }
 
+// edited strips: page in slot 0, its edited clone (same stored checksum, other bitmaps) in another slot; every redrawn glyph is shown in both fonts
+const EDITED_STRIPS: u64 = PAGES as u64 * EDITED_GLYPHS.len() as u64 * 8;
+
+fn edited_strip(i: u64) -> Strip {
+    Strip { in_slot0: true, neighbour: (i % 8) as u8, glyph: EDITED_GLYPHS[((i / 8) % EDITED_GLYPHS.len() as u64) as usize], page: (i / 8 / EDITED_GLYPHS.len() as u64) as u8 }
+}
+
+fn edited_strip_doc(s: &Strip) -> Doc {
+    let mut d = strip_doc(s);
+    let page = s.page as usize % PAGES;
+    // the clone sits in a slot whose own page is another one
+    let other = if page == 1 { 2u8 } else { 1u8 };
+    d.slots = vec![0, other];
+    d.edited_clone = Some(1);
+    d.edited_space = true;
+    // every second cell of the strip (and the whole second row's glyph cells) is shown in the clone
+    for (y, row) in d.layers[0].rows.iter_mut().enumerate() {
+        for (x, c) in row.iter_mut().enumerate() {
+            if (x + y) % 2 == 1 {
+                c.font = 1;
+            }
+        }
+    }
+    d
+}
+
+fn check_edited_strip(s: &Strip) -> Verdict {
+    match check_doc(&edited_strip_doc(s)) {
+        Verdict::Pass { .. } => Verdict::pass(s.neighbour & 3 != 0, "edited_clone"),
+        v => v,
+    }
+}
+
 fn main() {
     let mut eng = Engine::new("C12");
     eng.rule(
         "documents: 1..=12 x 1..=6 cells, 1..=4 Normal-mode layers (alpha channel, offset -3..8/-2..4, own size, hidden, default font page), cells = glyph (NUL/space/255/219, \
          every glyph the harness classifies all-clear or all-set in the cell's font, any of 0..=255) x fg/bg (16 palette colours, up to 4 RGB colours inserted into the palette) x bold x \
          font slot (up to 3 slots per document holding any of the 43 built-in pages, slot 0 may hold any page, so 8- and 16-row fonts mix) x visible/invisible cell x \
+         edited font clone (20%: one of the extra slots holds a clone of slot 0's font with ten glyphs redrawn in place and the cached checksum left stale) x \
          storage shape of layer 0 (40%: extra lines below, rows longer than the width, layer larger than the buffer, terminal size != buffer size, unallocated trailing cells). \
          strips (exhaustive): 43 pages x 256 glyphs x 8 neighbour attributes (other fg, other bg, bold) x {page in slot 0, page in its own slot}: a 5x2 document with the glyph under test \
-         after a mixed glyph, after itself, at the line end and at the line start. Both normalize_whitespaces settings are evaluated for every case. \
+         after a mixed glyph, after itself, at the line end and at the line start. edited_strips (exhaustive): 43 pages x the 10 redrawn glyphs x 8 neighbour attributes, the page in slot 0 and \
+         its edited clone in another slot, the strip's cells alternating between both. Both normalize_whitespaces settings are evaluated for every case. \
          Non-trivial (documents): the composited picture has >= 1 all-clear glyph with foreground != 7 whose scan-order predecessor has another foreground AND >= 1 all-set glyph; \
          (strips): the glyph under test is all-clear or all-set and the neighbour differs in fg or bg. Distinct by case hash.",
     );
@@ -717,6 +788,7 @@ fn main() {
     eng.assume("secondary clause compares the composited document with layer 0 of the optimised buffer (flat_clone writes the composite there)");
 
     eng.enumerated(PartCfg::new("strips", 0, 0).exhaustive(true), STRIPS, strip, check_strip);
+    eng.enumerated(PartCfg::new("edited_strips", 0, 0).exhaustive(true), EDITED_STRIPS, edited_strip, check_edited_strip);
     eng.generated_min(PartCfg::new("documents", 800_000, 12_000_000), || docs(), check_doc, classify, minimize);
     eng.run();
 }
